@@ -110,4 +110,11 @@ PROPS = {
         trusted_base=COMMON_TB + ['Dfs.dfs is the model of the visited-set search in schema.rs:398-440 and (after the repair) query/selection.rs contains_fragment; Codegen.input_succs / frag_succs say which edges the code follows; Box placement (input_field_type, push_alias / push_field boxed) is tied by RunGen.gen_corr on every generated graph and pattern', "rustc's sizedness rule, as the oracle RunC12.finite_size states it: Option is inline, Vec and Box are indirections, an alias contains its target (E0072 otherwise); not compiled in this check", 'serde treats Box<T> as T (Serde.v: RBox is transparent)'],
         assumptions=['spreads name defined fragments (frags_closed; guaranteed by resolve, C06_spread_rule)'],
     ),
+    "C17": dict(
+        coq_props=['Properties/C17.v'],
+        run_modules=['RunC17.v'],
+        harness_cmd='c17',
+        trusted_base=COMMON_TB + ["the recursion structure of the models (Dfs.dfs, Query.contains_typename, Codegen.collect / used_inputs / calc) mirrors the code's, visited sets included; tied by RunGen (outcome class of every surviving adversarial program, and exact output on the random corpus)", "stack capacity, graphql_parser's own recursion and the OS are runtime: the theorems bound the recursion depth of the generator's walks (by #fragments, #inputs, selection depth); the worker processes measure what actually happens (exit status / signal / wall time)", 'a Rust panic carries a message iff the payload is a &str / String (observed by the worker)'],
+        assumptions=['spreads name defined fragments (guaranteed by resolve) for the fragment recursion test'],
+    ),
 }
